@@ -2,7 +2,7 @@
 //!
 //! [Feature Variations]: https://learn.microsoft.com/en-us/typography/opentype/spec/chapter2#feature-variations
 
-use std::collections::{BTreeMap, HashMap};
+use std::collections::{BTreeMap, HashMap, HashSet};
 
 use fea_rs::compile::{FeatureBuilder, FeatureProvider, PendingLookup};
 use fontdrasil::types::GlyphName;
@@ -61,7 +61,7 @@ impl FeatureVariationsProvider {
             fontir::feature_variations::overlay_feature_variations(conditional_subs);
         let (lookups, lookup_map) = make_substitution_lookups(&substitutions, glyph_order);
 
-        let conditions = substitutions
+        let mut conditions = substitutions
             .iter()
             .map(|(cond_set, subs)| {
                 let mut indices = subs
@@ -73,6 +73,13 @@ impl FeatureVariationsProvider {
                 (condition_set, indices)
             })
             .collect::<Vec<_>>();
+
+        // Distinct boxes can map to the same condition set (a condition that spans
+        // an axis' whole range is dropped, e.g. [-1, 0] on an axis whose maximum is
+        // its default). The first such record is the one a shaper would pick; keep
+        // it, as records are later keyed by condition set and the last one would win.
+        let mut seen = HashSet::new();
+        conditions.retain(|(condition_set, _)| seen.insert(condition_set.clone()));
 
         Ok(FeatureVariationsProvider {
             tags: ir_variations.features.clone(),
